@@ -1012,8 +1012,8 @@ int main(int argc, char **argv) {
     return 0;
   }
   if (o.runs < 0)
-    o.runs = (o.tier == "thorough") ? 200000 : 6000;
+    o.runs = (o.tier == "thorough") ? 400000 : 30000;
   if (o.max_seconds < 0)
-    o.max_seconds = (o.tier == "thorough") ? 1500 : 75;
+    o.max_seconds = (o.tier == "thorough") ? 1500 : 60;
   return property_main(o);
 }
